@@ -317,6 +317,11 @@ func (te *tableEngine) UpdateTablePlayers(joinPlayers []JoinPlayer, leavePlayerI
 	te.lock.Lock()
 	defer te.lock.Unlock()
 
+	// validate the whole batch before anything is changed
+	if err := te.validateMembershipBatch(joinPlayers, leavePlayerIDs); err != nil {
+		return nil, err
+	}
+
 	// remove players
 	if len(leavePlayerIDs) > 0 {
 		if err := te.batchRemovePlayers(leavePlayerIDs); err != nil {
